@@ -293,7 +293,7 @@ func (c *Ctx) canonEnvD(v ssa.Value, e env, d int) string {
 
 // joinLockDir recognises filepath.Join(D, "lock") (under e) and returns D.
 func (c *Ctx) joinLockDir(v ssa.Value, e env) (ssa.Value, bool) {
-	v = resolveEnv(v, e)
+	v, e = c.throughPureHelper(v, e)
 	call, ok := v.(*ssa.Call)
 	if !ok || calleeFullName(&call.Call) != "path/filepath.Join" {
 		return nil, false
@@ -305,17 +305,55 @@ func (c *Ctx) joinLockDir(v ssa.Value, e env) (ssa.Value, bool) {
 	if s, ok := constString(el[1]); !ok || s != "lock" {
 		return nil, false
 	}
-	return el[0], true
+	return resolveEnv(el[0], e), true
+}
+
+// throughPureHelper: v (under e) is a call to a one-expression module helper (lockPathFor(dir) = Join(dir, "lock"),
+// tmpPathFor(p) = p + ".tmp"): the expression it returns, with the helper's parameters bound to the arguments.
+// Anchors and the log chooser are never looked into.
+func (c *Ctx) throughPureHelper(v ssa.Value, e env) (ssa.Value, env) {
+	for i := 0; i < 3; i++ {
+		v = resolveEnv(v, e)
+		idx := 0
+		call, ok := v.(*ssa.Call)
+		if ex, isEx := v.(*ssa.Extract); isEx {
+			// one component of a multi-result helper (storePaths(dir) -> lockPath, eventsPath)
+			call, ok = ex.Tuple.(*ssa.Call)
+			idx = ex.Index
+		}
+		if !ok || call == nil {
+			return v, e
+		}
+		h := call.Call.StaticCallee()
+		if h == nil || !c.InModule(h) || h.Blocks == nil || h == c.F.Chooser || c.opaqueHelper(h) || len(h.Blocks) != 1 {
+			return v, e
+		}
+		rets := returnsOf(h)
+		if len(rets) != 1 || idx >= len(rets[0].Results) || (idx == 0 && len(rets[0].Results) != 1 && v == ssa.Value(call)) {
+			return v, e
+		}
+		e2 := env{}
+		for k, val := range e {
+			e2[k] = val
+		}
+		for j, prm := range h.Params {
+			if j < len(call.Call.Args) {
+				e2[prm] = resolveEnv(call.Call.Args[j], e)
+			}
+		}
+		v, e = rets[0].Results[idx], e2
+	}
+	return resolveEnv(v, e), e
 }
 
 // chooserDir recognises chooser(D) (under e) and returns D.
 func (c *Ctx) chooserDir(v ssa.Value, e env) (ssa.Value, bool) {
-	v = resolveEnv(v, e)
+	v, e = c.throughPureHelper(v, e)
 	call, ok := v.(*ssa.Call)
 	if !ok || call.Call.StaticCallee() != c.F.Chooser || c.F.Chooser == nil || len(call.Call.Args) != 1 {
 		return nil, false
 	}
-	return call.Call.Args[0], true
+	return resolveEnv(call.Call.Args[0], e), true
 }
 
 // commitEffect: effect classes that make a change visible in a live file.
@@ -331,6 +369,13 @@ func commitEffectClass(class string) bool {
 // isTempOfLog: path is <something LOG> + constant suffix (a temp sibling of the live log).
 func (c *Ctx) isTempOfLog(v ssa.Value) bool {
 	v = resolve(v)
+	if hv, he := c.throughPureHelper(v, nil); hv != v {
+		if b, ok := hv.(*ssa.BinOp); ok && b.Op == token.ADD {
+			if s, ok := constString(b.Y); ok && s != "" {
+				return c.pathClass(resolveEnv(b.X, he))[classLOG]
+			}
+		}
+	}
 	if b, ok := v.(*ssa.BinOp); ok && b.Op == token.ADD {
 		if s, ok := constString(b.Y); ok && s != "" {
 			return c.pathClass(b.X)[classLOG]
